@@ -202,6 +202,18 @@ InCrateDomain(ref) ==
 StepBound(n) == 64 * n + 1024
 HeapBoundOf(n) == 1024 * n + 65536
 
+\* C06, "parsing of the enclosing element resumes immediately after the name's in-place bytes": the fields of
+\* a record that FOLLOW a name in its RDATA schema come out as the reference decoder reads them (on messages with
+\* surplus RDATA, pointers in RDATA, ...): a wrong resume position shows there, whatever the names themselves say
+AfterNameOK(c, r) ==
+  IF r.rd = <<>> \/ r.type = 41 THEN TRUE
+  ELSE LET sc == Schema(r.type)
+           ks == {i \in 1 .. Len(sc) : sc[i].t = "N"} IN
+       IF ks = {} THEN TRUE
+       ELSE LET k == CHOOSE i \in ks : \A j \in ks : i <= j IN
+            Len(c.rd) = Len(r.rd) /\ \A j \in (k + 1) .. Len(r.rd) : c.rd[j] = r.rd[j]
+AfterNameAll(cs, rs) == Len(cs) = Len(rs) => \A i \in 1 .. Len(rs) : AfterNameOK(cs[i], rs[i])
+
 TraceParse ==
   /\ Ev.ev = "Parse"
   /\ LET b == Ev.b
@@ -217,6 +229,10 @@ TraceParse ==
              (ref.ok /\ ref.exact /\ ref.end = Len(b) /\ InCrateDomain(ref) /\ PlainReencode(b, ref) = b)
                => out[1] = "ok",
              <<"canonical-plain-message-rejected", out>>)
+     /\ Rule(l, "AfterName",
+             (out[1] = "ok" /\ ref.ok /\ Len(out[2].ar) = Len(ref.pkt.ar))
+               => (AfterNameAll(out[2].an, ref.pkt.an) /\ AfterNameAll(out[2].ns, ref.pkt.ns) /\ AfterNameAll(out[2].ar, ref.pkt.ar)),
+             <<"fields-after-a-name-differ-from-reference", IF ref.ok /\ out[1] = "ok" THEN PktDiff(out[2], ref.pkt) ELSE "-">>)
      \* C05, observed at the entry loop itself (hook at the top of Question::parse / ResourceRecord::parse):
      \* every entry the parser starts on begins where the envelope walker says an entry begins -- never in
      \* the middle of the previous record, whatever the outcome of the parse
@@ -269,6 +285,10 @@ TraceRoundTrip ==
              <<"plain", Ev.pp[1], IF Ev.pp[1] = "ok" THEN PktDiff(Ev.pp[2], p) ELSE "-">>)
      /\ Rule(l, "CompDecodes", compOk => (dc.ok /\ dc.exact /\ dc.end = Len(Ev.comp[2]) /\ dc.pkt = p),
              <<"ref-decode-of-compressed", IF dc.ok THEN PktDiff(dc.pkt, p) ELSE dc.why>>)
+     \* C09 through the compressing serialiser as well: the OPT pseudo-record arrives as EDNS data of the message
+     \* (in the additional section, upper rcode bits in its TTL), whatever else the message holds
+     /\ Rule(l, "CompOpt", (compOk /\ p.opt # <<>>) => (dc.ok /\ dc.pkt.opt = p.opt /\ dc.pkt.rcode = p.rcode),
+             <<"edns-after-compressed-serialisation", IF dc.ok THEN <<dc.pkt.opt, dc.pkt.rcode>> ELSE dc.why>>)
      /\ Rule(l, "CompShorter", (plainOk /\ compOk) => Len(Ev.comp[2]) <= Len(Ev.plain[2]),
              <<"comp", IF compOk THEN Len(Ev.comp[2]) ELSE 0, "plain", IF plainOk THEN Len(Ev.plain[2]) ELSE 0>>)
      /\ Rule(l, "CompRoundTrip", compOk => (Ev.pc[1] = "ok" /\ Ev.pc[2] = p),
